@@ -213,6 +213,11 @@ fn grad_ok(g: &Grad, r: &D64) -> Result<(), String> {
         if !gd[i].is_finite() && !r.d[i].is_finite() {
             continue;
         }
+        // near or beyond the f32 range the f32 evaluation overflows where the
+        // f64 reference does not: not a differentiability question, skip
+        if r.m[i] > 1e30 || r.d[i].abs() > 1e30 || r.v.abs() > 1e30 {
+            continue;
+        }
         if (gd[i] - r.d[i]).abs() > tol {
             return Err(format!(
                 "partial {} = {:e}, true derivative {:e} (tolerance {:e})",
@@ -253,6 +258,7 @@ enum Unit {
     Unary(U),
     Binary(B),
     Dag { n: usize, prefix: Vec<POp> },
+    Fan { w: usize },
     Transform,
 }
 
@@ -287,6 +293,9 @@ fn units(tier: Tier) -> Vec<Unit> {
         for p in spec.prefixes(n) {
             v.push(Unit::Dag { n, prefix: p });
         }
+    }
+    for w in 1..=(if tier == Tier::Quick { 16 } else { 24 }) {
+        v.push(Unit::Fan { w });
     }
     v
 }
@@ -735,7 +744,7 @@ impl Check for C05 {
     }
     fn meta(&self, tier: Tier) -> Meta {
         Meta {
-            rule: "case = one grad-slice call; (a) every opcode x operand form {reg, reg/reg, same-reg, reg/imm, imm/reg} x operand values from a 20-value finite alphabet (squared for binary ops) x seed gradients {e_x,e_y,e_z,(2,-3,0.5),0,(1,1,1)} per operand, cut into slices of lengths 1..=9, VM and JIT; (b) every DAG up to the node bound over 20 differentiable ops with all nodes exported: local chain-rule obligation at every node (reference dual applied to the evaluator's own operand gradients) on a 36-point grid; (c) Context::deriv of the last node w.r.t. X and Y evaluated with ref32 vs the f64 dual-number derivative of the graph; (d) Shape grad evaluation with 7 matrices incl. projective; oracle: f64 forward-mode duals with a cancellation-aware tolerance 1e-4*max(1,|ref|,sum|terms|); value must equal the float-slice evaluator's; points within 1e-3 of an op's non-differentiable locus are skipped (counted); non-trivial = a derivative was actually compared".into(),
+            rule: "case = one grad-slice call; (a) every opcode x operand form {reg, reg/reg, same-reg, reg/imm, imm/reg} x operand values from a 20-value finite alphabet (squared for binary ops) x seed gradients {e_x,e_y,e_z,(2,-3,0.5),0,(1,1,1)} per operand, cut into slices of lengths 1..=9, VM and JIT; (b) fan families of width 1..16 (thorough 24) keeping w gradients live across atan2 / mod / sin / exp call-outs; every DAG up to the node bound over 20 differentiable ops with all nodes exported: local chain-rule obligation at every node (reference dual applied to the evaluator's own operand gradients) on a 36-point grid; (c) Context::deriv of the last node w.r.t. X and Y evaluated with ref32 vs the f64 dual-number derivative of the graph; (d) Shape grad evaluation with 7 matrices incl. projective; oracle: f64 forward-mode duals with a cancellation-aware tolerance 1e-4*max(1,|ref|,sum|terms|); value must equal the float-slice evaluator's; points within 1e-3 of an op's non-differentiable locus are skipped (counted); non-trivial = a derivative was actually compared".into(),
             bounds: match tier {
                 Tier::Quick => "DAG nodes <= 2".into(),
                 Tier::Thorough => "DAG nodes <= 3".into(),
@@ -793,6 +802,26 @@ impl Check for C05 {
                 for p in &progs {
                     op_level::<VmFunction>(cx, &mut sub, p, &format!("{op:?}"), 2);
                     op_level::<JitFunction>(cx, &mut sub, p, &format!("{op:?}"), 2);
+                }
+            }
+            Unit::Fan { w } => {
+                use crate::prog::{Order, family_fan};
+                let g = [-2.25f32, -0.8, 0.3, 0.75, 1.6, 3.1];
+                let pts: Vec<Vec<f32>> = g.iter().flat_map(|a| g.iter().map(move |b| vec![*a, *b])).collect();
+                for mid in [None, Some(U::Sin), Some(U::Exp), Some(U::Abs)] {
+                    for order in [Order::Forward, Order::Reverse, Order::Interleaved] {
+                        for comb in [B::Atan, B::Mod, B::Add, B::Min, B::Mul, B::Div] {
+                            let s = sub;
+                            sub += 1;
+                            if !cx.case(s) {
+                                continue;
+                            }
+                            cx.add("cases", 1);
+                            let p = family_fan(w, mid, order, comb);
+                            dag_prog::<VmFunction>(cx, &p, &pts);
+                            dag_prog::<JitFunction>(cx, &p, &pts);
+                        }
+                    }
                 }
             }
             Unit::Dag { n, prefix } => {
